@@ -20,6 +20,14 @@ CHECKS = {
    text="Round trip handout -> independent Bech32/Bech32m decoder -> script compared with a script derived from the specification -> verifier, with exclusivity checks (other key, one-bit-different EVM address, other magic, other key type, other version) for every key type x version x network; withdrawal addresses are produced by independent Base58Check/Bech32/Bech32m encoders for all standard types and networks and must decode to exactly the template script, while pay-to-pubkey strings, other-prefix addresses and mutated strings must be rejected. Exploration over random keys/addresses with a differential oracle is the natural level for codec agreement.",
    note="the independent codecs in harness/props/addr_test.go are trusted (written from BIP-173/350 and Base58Check); testnet3/signet/regtest share base58 prefixes, so 'foreign' means prefix inequality; non-standard witness programs are unspecified",
    tech="property-based testing (rapid): generator<->verifier round trip and differential against independent address codecs"),
+ "C10": dict(cat="exploration",
+   text="The admission policy is a finite decision table, so the single-message matrix (every message type registered in the live interface registry x mode x signer class x memo x timeout x signature fault) is enumerated completely in the thorough tier (a fixed covering subset in the quick tier) against a predicate written from the statement, with three observables: CheckTx code, ProcessProposal status and - inside a finalised block - whether the signer's account sequence advanced (the ante chain's writes persist even when the message then fails), plus twin-execution equality of the module stores for everything not admitted and for every non-bridge message; rapid adds multi-message, multi-signer and prepare-mode combinations. Generic message instances are built by protobuf reflection from the registry, so a dependency upgrade that registers more types is covered automatically.",
+   note="exact timeout boundaries are asserted in finalise/process mode only (CheckTx runs at the previous height); recheck is exercised only on transactions CheckTx admitted (as CometBFT does); right after a restart the SDK's check state has height 0 until the first commit, so the harness commits one block after every restart",
+   tech="exhaustive decision-table enumeration + property-based testing (rapid) of multi-message combinations vs admission predicate; sequence-advance and twin-execution observables"),
+ "C20": dict(cat="exploration",
+   text="Stateful generated histories of tax / confirmation / minimum-deposit requests with boundary-biased 64-bit values through real execution blocks; after every block the queried parameters must satisfy the bounds and equal an apply-or-ignore reference model, and boundary-valued deposits are verified against the then-current parameters by the registered handler (acceptance iff value >= minimum, amount+tax=value, tax<value, amount>0).",
+   note="the fee cap that accompanies an out-of-range rate is unspecified; deposit output values restricted to [0, 21e14]",
+   tech="property-based testing (rapid): stateful parameter histories vs apply-or-ignore model + deposit consequence oracle"),
 }
 NA_REASON = "check not built yet in this round (planned, see DESIGN.md §5); not a statement that the technique cannot apply"
 m = {
